@@ -118,7 +118,7 @@ def run(ctx):
                 '(Python int/float, NumPy scalar, 0-d array, n-d array, dimensionless Quantity), both operand orders, real and imaginary phases '
                 'and factors; floor-division / remainder / divmod by a phase quantity; sin/cos/exp. Every case is non-trivial; distinct by '
                 '(op, operands).')
-    ctx.trusted = ['Coq 8.16.1 kernel; stdlib FloatAxioms (kernel binary64 primitives = IEEE 754) and the real-number axioms through Flocq; '
+    ctx.trusted = ["translator T7 translate/py_float2coq.py (day_frac, from_angles, the arguments of the __array_ufunc__ branches, the divmod branch -> PrimFloat terms; two_sum / two_product / np.floor are the model's definitions)", 'Coq 8.16.1 kernel; stdlib FloatAxioms (kernel binary64 primitives = IEEE 754) and the real-number axioms through Flocq; '
                    'vm_compute on primitive floats', 'astropy two_sum/two_product/split as transcribed (checked bit for bit on every case)',
                    'np.floor = mathematical floor on doubles (Proofs/Floor.ffloor_spec proves the model\'s floor is)']
     ctx.assumptions = ['integer operands beyond 2^53 and counts beyond 2^52 are outside the sampled domain (property: counts up to 2^52)',
